@@ -35,7 +35,7 @@ def parseArgs (s : Bytes) : Option (List (Bytes × Bytes)) :=
     | none => none
     | some m =>
       match splitByte arg 61 with   -- '='
-      | [k, v] => some (insertArg m (toUpper k) v)
+      | [k, v] => if v.isEmpty then none else some (insertArg m (toUpper k) v)
       | [k] => some (insertArg m (toUpper k) [])
       | _ => none) (some [])
 
